@@ -362,25 +362,21 @@ static int gnutls_verify_sha_pem(jwt_t *jwt, const char *head,
 	case JWT_ALG_ES256K:
 	case JWT_ALG_ES384:
 	case JWT_ALG_ES512:
-		/* XXX Gotta be a better way. */
-		if (sig_len == 64) {
-			r.size = 32;
-			r.data = sig;
-			s.size = 32;
-			s.data = sig + 32;
-		} else if (sig_len == 96) {
+		/* RFC 7518 3.4: R and S are each exactly as wide as the
+		 * curve of the algorithm, nothing else is a signature. */
+		if (jwt->alg == JWT_ALG_ES384)
 			r.size = 48;
-			r.data = sig;
-			s.size = 48;
-			s.data = sig + 48;
-		} else if (sig_len == 132) {
+		else if (jwt->alg == JWT_ALG_ES512)
 			r.size = 66;
-			r.data = sig;
-			s.size = 66;
-			s.data = sig + 66;
-		} else {
+		else
+			r.size = 32;
+
+		if ((unsigned int)sig_len != 2 * r.size)
 			VERIFY_ERROR("Irregular sig_len for ECDHA"); // LCOV_EXCL_LINE
-		}
+
+		r.data = sig;
+		s.size = r.size;
+		s.data = sig + r.size;
 
 		if (gnutls_encode_rs_value(&sig_dat, &r, &s) ||
 		    gnutls_pubkey_verify_data2(pubkey, alg, 0, &data, &sig_dat))
